@@ -166,6 +166,7 @@ func c20(r *core.Report) {
 	})
 	crashIndex(r, csAll, 8)
 	crashLib(r, csAll, 3)
+	crashHash(r, csAll, 3)
 	lg := map[*ssa.Function]string{}
 	crashRec(r, csAll, func(site ssa.CallInstruction, callee *ssa.Function) string {
 		if w, ok := lg[callee]; ok {
